@@ -21,6 +21,7 @@ type Engine struct {
 	currentKey rune            // The identifier of the macro being recorded.
 	macros     map[rune]string // All previously recorded macros.
 	started    bool
+	refused    bool // The last command asked to run the macro being recorded: its keys stay out of it.
 
 	keys   *core.Keys // The engine feeds macros directly in the key stack.
 	hint   *ui.Hint   // The engine notifies when macro recording starts/stops.
@@ -46,6 +47,14 @@ func RecordKeys(eng *Engine) {
 
 	keys := core.MacroKeys(eng.keys)
 	if len(keys) == 0 {
+		return
+	}
+
+	// A call to the macro being recorded was refused: recording
+	// it would make the macro call itself for ever when replayed.
+	if eng.refused {
+		eng.refused = false
+
 		return
 	}
 
@@ -110,6 +119,14 @@ func (e *Engine) Recording() bool {
 // Note that this function only feeds the keys of the macro back into the key
 // stack: it does not dispatch them to commands, therefore not running any.
 func (e *Engine) RunLastMacro() {
+	// The macro being recorded becomes the last one when recording
+	// ends: it cannot call itself (it would never end when replayed).
+	if e.recording {
+		e.refused = true
+
+		return
+	}
+
 	if len(e.macros) == 0 {
 		return
 	}
@@ -130,6 +147,13 @@ func (e *Engine) RunLastMacro() {
 // stack: it does not dispatch them to commands, therefore not running any.
 func (e *Engine) RunMacro(key rune) {
 	if !isValidMacroID(key) && key != 0 {
+		return
+	}
+
+	// The macro being recorded cannot call itself.
+	if e.recording && (key == e.currentKey || key == 0) {
+		e.refused = true
+
 		return
 	}
 
